@@ -4,13 +4,13 @@ use std::num::NonZeroUsize;
 //@item rodbus/src/types.rs | ClientOptions | derive=Clone,Copy
 impl ClientOptions {
 // each builder method sets its own field and nothing else [C12: the consecutive-timeout limit; C20: the decode level]
-//@fn rodbus/src/types.rs | ClientOptions::channel_logging | tags=C13
+//@fn rodbus/src/types.rs | ClientOptions::channel_logging | tags=C10,C12,C13,C20
 //@|    ensures r == (ClientOptions { channel_logging, ..self }),
-//@fn rodbus/src/types.rs | ClientOptions::max_queued_requests | tags=C10
+//@fn rodbus/src/types.rs | ClientOptions::max_queued_requests | tags=C10,C12,C13,C20
 //@|    ensures r == (ClientOptions { max_queued_requests, ..self }),
-//@fn rodbus/src/types.rs | ClientOptions::decode_level | tags=C20
+//@fn rodbus/src/types.rs | ClientOptions::decode_level | tags=C10,C12,C13,C20
 //@|    ensures r == (ClientOptions { decode_level, ..self }),
-//@fn rodbus/src/types.rs | ClientOptions::max_response_timeouts | tags=C12
+//@fn rodbus/src/types.rs | ClientOptions::max_response_timeouts | tags=C10,C12,C13,C20
 //@|    ensures r == (ClientOptions { max_timeouts, ..self }),
 }
 impl Default for ClientOptions {
